@@ -108,3 +108,38 @@ fn c02_braid_iter_auto_spill_258() {
     }
     assert!(it.next().is_none());
 }
+
+
+// ------------------------------------------------------------------ C04: N-way LCA ---
+/// ⟦last_common_ancestor⟧ on a trunk with two lone tips hanging off it at symbolic heights, the
+/// three heads given in any order: the result is a command of the graph that is an
+/// ancestor-or-self of EVERY head (the braid drops everything at or below it as shared history,
+/// so a result that is not a common ancestor loses commands).
+#[kani::proof]
+#[kani::unwind(12)]
+fn c04_lca_three_heads_common_ancestor() {
+    use crate::verif_mocks::GStorage;
+    let lx: u64 = kani::any();
+    let f1: u64 = kani::any();
+    let f2: u64 = kani::any();
+    kani::assume(lx >= 2 && lx <= 6 && f1 >= 1 && f1 <= lx && f2 >= 1 && f2 <= lx);
+    let mut g = GStorage::shape2(lx, f1, 1, f2, 1);
+    let l = |s: u64, m: u64| Location::new(crate::SegmentIndex::new(s), crate::MaxCut::new(m));
+    let hs = [l(1, lx), l(2, f1 + 1), l(3, f2 + 1)];
+    let p: u8 = kani::any();
+    kani::assume(p < 6);
+    let perm: [[usize; 3]; 6] = [[0, 1, 2], [0, 2, 1], [1, 0, 2], [1, 2, 0], [2, 0, 1], [2, 1, 0]];
+    let heads = [hs[perm[p as usize][0]], hs[perm[p as usize][1]], hs[perm[p as usize][2]]];
+    match last_common_ancestor(&mut g, &heads) {
+        Ok(r) => {
+            assert!(g.valid(r));
+            let mut k = 0;
+            while k < 3 {
+                assert!(r == hs[k] || g.proper_ancestor(r, hs[k]));
+                k += 1;
+            }
+            kani::cover!(f1 < f2 && p == 0);
+        }
+        Err(_) => panic!("lca failed on a well-formed graph"),
+    }
+}
